@@ -76,6 +76,18 @@ def _t_never(v):
     return False
 
 
+def _t_gt_arg(v, a):
+    return isinstance(v, (int, float)) and not isinstance(v, bool) and isinstance(a, (int, float)) and v > a
+
+
+def _t_startswith_arg(v, a):
+    return isinstance(v, str) and isinstance(a, str) and v.startswith(a)
+
+
+def _t_between_args(v, lo, hi):
+    return isinstance(v, (int, float)) and not isinstance(v, bool) and isinstance(lo, (int, float)) and lo <= v < hi
+
+
 TESTS = {
     "is_none": _t_is_none,
     "truthy": _t_truthy,
@@ -87,6 +99,9 @@ TESTS = {
     "is_str": _t_is_str,
     "always": _t_always,
     "never": _t_never,
+    "gt_arg": _t_gt_arg,
+    "startswith_arg": _t_startswith_arg,
+    "between_args": _t_between_args,
 }
 
 
